@@ -29,7 +29,7 @@ fn main() {
     if cmd == "replay" {
         std::process::exit(work::replay(&a));
     }
-    base::spawn_hang_watchdog(a.u64("hang-secs", 90));
+    base::spawn_hang_watchdog(a.u64("hang-secs", 60));
     let prop = a.str("prop", "C01");
     let mut rep = run::Report::new(&prop, &cmd, &a.str("replays", "replays"));
     let t0 = std::time::Instant::now();
